@@ -493,9 +493,9 @@ func (t *Tracker) Apply(x *Exec, r *StepRec) {
 		x.memoReq[reqMemoKey(cid, ri.Batch, ri.Provider)] = rid
 		// issued and answered within one step (a call to a module-reserved service is served synchronously by the
 		// module that registered it): the request never was pending between two steps, its response is already there
-		if resp, ok := post.Resp[rid]; ok && !post.Active15[rid] && r.Kind == "msg" && r.Msg.T == "call" {
+		if _, ok := post.Resp[rid]; ok && !post.Active15[rid] && r.Kind == "msg" && r.Msg.T == "call" {
 			ri.Answered, ri.AnsweredAt, ri.SettledAt = true, h, h
-			if outputKind(resp.Output) == "malformed" {
+			if servedOutputKind(r, rid) == "malformed" {
 				ri.Settlement = "refunded_bad"
 			} else {
 				ri.Settlement = "earned"
